@@ -176,6 +176,23 @@ func checkString(s string, s2 string) string {
 	if o, ok := out.(string); !(ok && o == s) && !(s == "" && out == nil) {
 		return fmt.Sprintf("top level: %d characters in, got %T of %d octets (first difference at octet %d)", utf8.RuneCountInString(s), out, len(fmt.Sprint(out)), firstDiff(s, fmt.Sprint(out)))
 	}
+	// the same through a Decoder that was declared, not constructed (var d Decoder; d.Decode / d.ReadFrom)
+	for via := 0; via < 2; via++ {
+		var zd hessian.Decoder
+		var zo interface{}
+		if pv, st := guard(func() {
+			if via == 0 {
+				zo, err = zd.Decode(b)
+			} else {
+				zo, err = zd.ReadFrom(bytes.NewReader(b))
+			}
+		}); pv != nil || err != nil {
+			return fmt.Sprintf("top-level decode through a zero-value Decoder (entry %d): %v %v [%s]", via, err, pv, st)
+		}
+		if o, ok := zo.(string); !(ok && o == s) && !(s == "" && zo == nil) {
+			return fmt.Sprintf("top level through a zero-value Decoder: %d characters in, got %T of %d octets", utf8.RuneCountInString(s), zo, len(fmt.Sprint(zo)))
+		}
+	}
 	// ---- struct field, list element (with "" between neighbours), map key, map value, untyped list element
 	c := &zoo.StrCarrier{S: s, L: []string{"a", s, "", s2, s}, MK: map[string]int32{s: 1, s2 + "x": 2}, MV: map[string]string{"k": s, "": s2, "e": ""}, A: []interface{}{s, "", int32(1), s2}}
 	stage, rerr, cb := roundTrip(c)
